@@ -233,9 +233,7 @@ func (c *collector) Collect(ch chan<- prometheus.Metric) {
 				continue
 			}
 
-			if help != "" {
-				m.Description = help
-			}
+			m.Description = help
 
 			switch v := m.Data.(type) {
 			case metricdata.Histogram[int64]:
@@ -615,7 +613,7 @@ func (c *collector) validateMetrics(name, description string, metricType *dto.Me
 			Help: proto.String(description),
 			Type: metricType,
 		}
-		return false, ""
+		return false, description
 	}
 
 	if emf.GetType() != *metricType {
@@ -638,7 +636,7 @@ func (c *collector) validateMetrics(name, description string, metricType *dto.Me
 		return false, emf.GetHelp()
 	}
 
-	return false, ""
+	return false, description
 }
 
 func addExemplars[N int64 | float64](m prometheus.Metric, exemplars []metricdata.Exemplar[N]) prometheus.Metric {
